@@ -44,7 +44,7 @@ RPC_EXEMPT = {'next_from_generator': 'legacy stub: no server binding and no'
 
 
 def run(ctx: Ctx):
-  for r in (r1, r2, r3, r4, r5, r6, r7, r9, r13, r14):
+  for r in (r1, r2, r3, r4, r5, r6, r7, r9, r13, r14, r15, r16):
     ctx.guard(r)
   from mlmverif.props import c04
   from mlmverif.props._queue import model as qmodel
@@ -187,6 +187,76 @@ def r14(ctx: Ctx):
     else:
       ctx.ok(rule, fi, f'{name}: always asks self.worker, keeps nothing', fi.node)
   ctx.floor(rule, 2, n)
+
+
+def r15(ctx: Ctx):
+  rule = 'R-C14-15'
+  ctx.rule(rule, '"chains of attribute access, indexing and calls on a remote object behave like on the'
+           ' local object": the forwarding dunder methods of RemoteObject (__getattr__, __getitem__,'
+           ' __call__) are TOTAL — every normal path builds the remote reference from the argument as'
+           ' given, and nothing raises or returns early depending on the argument (a name filter such'
+           ' as "no leading underscore" makes _fields/_asdict()/_replace() of a remote namedtuple'
+           ' unreachable and changes the error of a missing attribute)')
+  ci = ctx.repo.cls(CU, 'RemoteObject')
+  n = 0
+  for name in ('__getattr__', '__getitem__', '__call__'):
+    fi = ci.methods.get(name)
+    if fi is None:
+      continue
+    n += 1
+    ps = set(fi.params()[1:])
+    a = fi.node.args
+    for extra in (a.vararg, a.kwarg):
+      if extra is not None:
+        ps.add(extra.arg)
+    g = cfgm.cfg_of(fi.node)
+    fwd = lambda nd: any(isinstance(c, ast.Call) and unparse(c.func).split('.')[-1] == 'new' and 'RemoteObject' in unparse(c.func)
+                         for c in cfgm.node_exprs(nd))
+    w = g.must_pass(g.entry, [g.exit_ret], fwd, cfgm.only_normal)
+    raises = [x for x in walk_no_nested(fi.node) if isinstance(x, ast.Raise)]
+    tests = [x for x in walk_no_nested(fi.node) if isinstance(x, (ast.If, ast.IfExp)) and any(
+        isinstance(y, ast.Name) and y.id in ps for y in ast.walk(x.test))]
+    if w is not None or raises or tests:
+      b = (raises or tests or [fi.node])[0]
+      ctx.fail(rule, fi, f'RemoteObject.{name} forwards every argument',
+               f'RemoteObject.{name} treats some arguments specially (`{unparse(b)[:60]}`): for those the chain on'
+               ' the handle no longer behaves like the chain on the local object', node=b)
+    else:
+      ctx.ok(rule, fi, f'RemoteObject.{name}: total forwarding', fi.node)
+  ctx.floor(rule, 3, n)
+
+
+def r16(ctx: Ctx):
+  rule = 'R-C14-16'
+  ctx.rule(rule, '"remote iterators and remote queues ... signal exhaustion once" with everything the'
+           ' underlying signal carries: wherever an exhaustion signal is converted into another'
+           ' exhaustion type (StopIteration <-> StopAsyncIteration, in a handler `except ... as e`), the'
+           ' new exception receives ALL values of the caught one (`*e.args`), not `e.value` (the first'
+           ' only; and `(None,)` instead of `()` for a producer that returned nothing): a queue fed by'
+           ' several producers ends with one return value per producer')
+  n = 0
+  for mod in (CU, 'utils.iter_utils'):
+    mi = ctx.repo.module(mod)
+    fns = list(mi.functions.values()) + [m_ for c in mi.classes.values() for m_ in c.methods.values()]
+    for fi in fns:
+      for h in walk_no_nested(fi.node):
+        if not (isinstance(h, ast.ExceptHandler) and h.name and h.type is not None and any(
+            t_ in unparse(h.type) for t_ in ('StopIteration', 'StopAsyncIteration'))):
+          continue
+        for r_ in ast.walk(h):
+          if isinstance(r_, ast.Raise) and isinstance(r_.exc, ast.Call) and unparse(r_.exc.func) in (
+              'StopIteration', 'StopAsyncIteration'):
+            n += 1
+            args = r_.exc.args
+            whole = len(args) == 1 and isinstance(args[0], ast.Starred) and unparse(args[0].value) == f'{h.name}.args'
+            if whole or not args:
+              ctx.ok(rule, fi, f'{fi.qualname}: {unparse(r_.exc)[:40]}', r_)
+            else:
+              ctx.fail(rule, fi, f'{fi.qualname}: a converted exhaustion signal carries *{h.name}.args',
+                       f'`{unparse(r_)[:60]}` rebuilds the exhaustion signal from `{unparse(args[0])[:20]}` instead of'
+                       f' `*{h.name}.args`: only the first return value survives, and a producer that returned nothing'
+                       ' is reported as having returned None', node=r_)
+  ctx.floor(rule, 3, n)
 
 
 
@@ -781,6 +851,11 @@ from mlmverif.selfcheck import B, OK  # noqa: E402
 _S = 'chainables/courier_server.py'
 _U = 'utils/courier_utils.py'
 VARIANTS = [
+    B('remote-getattr-refuses-private-names', 'utils/courier_utils.py',
+      '  def __getattr__(self, name: str) -> RemoteObject:\n    return RemoteObject.new(',
+      "  def __getattr__(self, name: str) -> RemoteObject:\n    if name.startswith('_'):\n      raise AttributeError(name)\n    return RemoteObject.new(", 'R-C14-15'),
+    B('async-exhaustion-carries-first-value-only', 'utils/courier_utils.py',
+      '      raise StopAsyncIteration(*e.args) from e', '      raise StopAsyncIteration(e.value) from e', 'R-C14-16'),
     B('pickler-passes-bytes-through', 'chainables/lazy_fns.py',
       '    bytes_ = self.default.dumps(value)', '    bytes_ = value if isinstance(value, bytes) else self.default.dumps(value)', 'R-C14-13'),
     OK('pickler-compress-by-if', 'chainables/lazy_fns.py',
